@@ -74,7 +74,57 @@ def scalar_angle_operator(rng: Any, ctx: Ctx) -> tuple[Any, Any]:
     return s, op
 
 
+def case_history(rng: Any, ctx: Ctx, index: int) -> None:
+    """One operator OBJECT whose very first application happens inside a jit that closes over the operator and over constant
+    data (the "data are constants of the loss" pattern), applied eagerly afterwards: the eager result must not depend on that
+    history.  Inside a composition only the operand applied first sees concrete data, so the object is used bare: an atom, its
+    lazy or dedicated transpose, its closed-form inverse."""
+    gen.begin_case(rng)
+    s = gen.rand_struct(rng)
+    a = generate(lambda: gen.atom(rng, s))
+    variants = [('A', lambda: a)]
+    if 'InverseOperator' not in dense.class_names(a):
+        variants.append(('A.T', lambda: a.T))
+        variants.append(('A.T', lambda: a.T))
+    if dense.struct_eq(a.in_structure(), a.out_structure()) and type(a).__name__ in (
+            'DiagonalOperator', 'HomothetyOperator', 'IdentityOperator', 'QURotationOperator', 'HWPOperator', 'BlockDiagonalOperator'):
+        variants.append(('A.I', lambda: a.I))
+    label, mk = variants[int(rng.integers(len(variants)))]
+    try:
+        op = mk()
+    except Exception:  # noqa: BLE001
+        return
+    x = gen.rand_input(rng, op.in_structure())
+    fresh = jax.tree.unflatten(*reversed(jax.tree.flatten(op)))       # same content, no history
+    mon = 'C18.jit-closure'
+    key = f'{type(op).__name__}<{type(a).__name__}>'
+    LOG.case_key(f'history:{label}:{dense.skeleton(op)}:{struct_kind(s)}', True)
+    LOG.count('C18.history', f'bare:{label}')
+    tol = max(dense.tol_for(op), 1e-6)
+    LOG.evaluated(mon)
+    try:
+        yj = jax.jit(lambda sc: jax.tree.map(lambda l: sc * l, op.mv(x)))(1.0)
+    except Exception as exc:  # noqa: BLE001
+        LOG.violation('C18', mon, f'{key}/jit-constant-input/raises-{type(exc).__name__}', str(exc)[:200], expr=dense.describe(op))
+        return
+    try:
+        y = op.mv(x)
+        yj2 = jax.jit(lambda sc: jax.tree.map(lambda l: sc * l, op.mv(x)))(1.0)
+    except Exception as exc:  # noqa: BLE001
+        LOG.violation('C18', mon, f'{key}/eager-after-jit/raises-{type(exc).__name__}',
+                      'application fails after the object was first applied inside a jit: ' + str(exc)[:150], expr=dense.describe(op))
+        return
+    ref = fresh.mv(x)
+    for what, got in (('jit-constant-input', yj), ('eager-after-jit', y), ('second-jit', yj2)):
+        why = same_tree(ref, got, tol if what != 'eager-after-jit' else 0.0 if False else tol)
+        if why:
+            LOG.violation('C18', mon, f'{key}/{what}/{why.split(" ")[0]}', why, expr=dense.describe(op))
+            return
+
+
 def case(rng: Any, ctx: Ctx, index: int) -> None:
+    if index % 10 == 8:
+        return case_history(rng, ctx, index)
     if index % 10 == 9:
         s, op = scalar_angle_operator(rng, ctx)
         # a float32 (or Python) scalar angle limits the accuracy to float32 whatever the data dtype
